@@ -694,6 +694,8 @@ func init() {
 			c.do("vtt.write " + canonSubs(s))
 			c.count("generated")
 		}
+		c.do("vtt.write " + canonSubs(largePlainSubs(r, 1500)))
+		c.count("large")
 		// what the reader returns for the test data is written again
 		for _, d := range testdataDocs("vtt") {
 			if s, err := readWith("vtt", bytes.NewReader(d)); err == nil && s != nil {
